@@ -106,6 +106,7 @@ type Obligation struct {
 	// filled by the solver stage
 	Res SolverResult
 	SMTFile string
+	WallS  float64
 	Extra  []string // extra declarations/assertions local to this obligation (skolems)
 }
 
@@ -181,6 +182,18 @@ type Exec struct {
 	boundStack []map[string]boundVar
 	extraUses []string
 	factSet map[string]int
+	qstack  []*qframe
+	freshOnly map[string]bool
+	loopAlloc string
+	writes  map[string][]string
+	writeSeq int
+	freshRefs map[string]bool
+	curPos  token.Pos
+}
+
+type qframe struct {
+	names []string
+	facts []string
 }
 
 type siteID struct {
@@ -248,6 +261,17 @@ func (e *Exec) fresh(prefix, sort string) string {
 func (e *Exec) addFact(f string) {
 	if f == tTrue {
 		return
+	}
+	// facts produced while evaluating the body of a quantifier may mention its bound variables:
+	// they are attached to the innermost quantifier that binds one of them
+	for i := len(e.qstack) - 1; i >= 0; i-- {
+		q := e.qstack[i]
+		for _, n := range q.names {
+			if strings.Contains(f, n) {
+				q.facts = append(q.facts, f)
+				return
+			}
+		}
 	}
 	if e.factSet == nil {
 		e.factSet = map[string]int{}
@@ -477,8 +501,46 @@ func (e *Exec) zeroVal(t types.Type) Val {
 	}
 }
 
+func (e *Exec) logWrite(key, idx string) {
+	if e.writes == nil {
+		e.writes = map[string][]string{}
+	}
+	e.writes[key] = append(e.writes[key], idx)
+	e.writeSeq++
+}
+
+// isFreshTerm: a reference allocated during this function execution (or an object embedded in one).
+func (e *Exec) isFreshTerm(t string) bool {
+	for strings.HasPrefix(t, "(sub.") {
+		parts := splitSexp(t[1 : len(t)-1])
+		if len(parts) != 2 {
+			return false
+		}
+		t = parts[1]
+	}
+	return e.freshRefs[t]
+}
+
+// onlyFreshWrites reports whether all writes to key logged at positions >= from hit fresh objects.
+func (e *Exec) onlyFreshWrites(key string, from int) bool {
+	ws := e.writes[key]
+	if from > len(ws) {
+		from = len(ws)
+	}
+	for _, w := range ws[from:] {
+		if w == "*" || !e.isFreshTerm(w) {
+			return false
+		}
+	}
+	return true
+}
+
 func (e *Exec) allocRef(prefix string) string {
 	r := e.fresh(prefix, SInt)
+	if e.freshRefs == nil {
+		e.freshRefs = map[string]bool{}
+	}
+	e.freshRefs[r] = true
 	e.addFact(mkAnd(sx(">", r, e.st.alloc), sx(">", r, "0"), mkEq(sx("root", r), r)))
 	e.st.alloc = r
 	return r
@@ -502,6 +564,14 @@ func (e *Exec) heapGet(key, sort string) string {
 
 func (e *Exec) heapSet(key, sort, term string) {
 	e.heapGet(key, sort) // make sure init exists
+	// write log: which location of this heap key is written (used for loop havoc and frame obligations)
+	idx := "*"
+	if strings.HasPrefix(term, "(store ") {
+		if parts := splitSexp(term[1 : len(term)-1]); len(parts) == 4 {
+			idx = parts[2]
+		}
+	}
+	e.logWrite(key, idx)
 	if len(term) > 200 {
 		n := e.fresh("H."+key, sort)
 		e.addFact(mkEq(n, term))
@@ -543,13 +613,16 @@ func fieldKey(structName string, f *types.Var) string { return structName + "." 
 func (e *Exec) subRef(parent, key string) string {
 	fn := "sub." + smtName(key)
 	pfn := "par." + smtName(key)
-	e.declareFun(fn, []string{SInt}, SInt)
-	e.declareFun(pfn, []string{SInt}, SInt)
-	t := sx(fn, parent)
-	// injectivity, sign, root and tag facts for this instance
-	tagID := e.g.strID("subtag:" + key)
-	e.addFact(mkAnd(mkEq(sx(pfn, t), parent), sx("<", t, "0"), mkEq(sx("root", t), sx("root", parent)), mkEq(sx("subtag", t), mkInt(int64(tagID)))))
-	return t
+	if _, ok := e.declared[fn]; !ok {
+		e.declareFun(fn, []string{SInt}, SInt)
+		e.declareFun(pfn, []string{SInt}, SInt)
+		tagID := e.g.strID("subtag:" + key)
+		// injectivity, sign, root and tag of embedded objects (axiom of the memory model)
+		ax := fmt.Sprintf("(forall ((x Int)) (! (and (= (%s (%s x)) x) (< (%s x) 0) (= (root (%s x)) (root x)) (= (subtag (%s x)) %d)) :pattern ((%s x))))",
+			pfn, fn, fn, fn, fn, tagID, fn)
+		e.decls = append(e.decls, "(assert "+ax+")")
+	}
+	return sx(fn, parent)
 }
 
 func (e *Exec) readField(ref string, structT types.Type, f *types.Var) Val {
